@@ -769,7 +769,8 @@ class PairContext:
 # ------------------------------------------------------------------------------------------------
 MECHS = ["free", "pendulum", "double_pendulum", "slider", "pm_fixed_distance", "rigid_pair", "synth"]
 ATTACH = ["none", "gravity", "spring_h", "spring_c", "kelvin_voigt_c", "maxwell", "motor", "pd", "pid"]
-CONTACTS = ["none", "rest_mu0", "stick_mu", "slide_mu", "open_mu", "two_spheres", "two_spheres_slide", "accel_plane", "spin_offcentre"]
+CONTACTS = ["none", "rest_mu0", "stick_mu", "slide_mu", "open_mu", "two_spheres", "two_spheres_slide", "accel_plane", "spin_offcentre",
+            "ceiling_mu", "ceiling_mu0", "incline_stick"]
 INITS = ["rest", "spin"]
 INCONSISTENT = ["joint_velocity", "position_offset", "joint_offset", "penetration", "approaching", "s2s_penetration"]
 GRAV = 9.81
@@ -910,7 +911,7 @@ def build_c16(case):
     mus = {}
     if con != "none" or bad in ("penetration", "approaching", "s2s_penetration"):
         rad, mb = 0.25, 0.6
-        mu = 0.0 if con == "rest_mu0" else 0.3
+        mu = 0.0 if con in ("rest_mu0", "ceiling_mu0") else 0.3
         z = rad
         v = np.zeros(3)
         ft = np.zeros(3)
@@ -936,13 +937,35 @@ def build_c16(case):
             acc = np.array([0.8, -0.5, 2.0])
             plane = Frame(r_OP=lambda t: 0.5 * acc * t * t, r_OP_t=lambda t: acc * t, r_OP_tt=lambda t: acc, name="moving_plane")
             contr.append(plane)
+        ball_pos = [2.0, -1.0, z]
+        if con in ("ceiling_mu", "ceiling_mu0"):
+            # ball pressed from below against a plane whose normal points DOWN: the contact reaction lowers the
+            # acceleration components (sign-sensitive convergence tests, normals other than +e_z)
+            from cardillo.discrete import Frame
+
+            plane = Frame(A_IB=np.diag([1.0, -1.0, -1.0]), name="ceiling")
+            contr.append(plane)
+            ball_pos = [2.0, -1.0, -rad]
+            ft = np.array([0.1, -0.05, 2.0]) * mb * GRAV
+        if con == "incline_stick":
+            # ball resting on a plane inclined by 0.2 rad about a generic horizontal axis (tan 0.2 < mu for a sliding block;
+            # a sphere rolls, the initial state is at rest so friction is static)
+            from cardillo.discrete import Frame
+
+            ax = np.array([0.6, 0.8, 0.0])
+            ang = 0.2
+            K = np.array([[0, -ax[2], ax[1]], [ax[2], 0, -ax[0]], [-ax[1], ax[0], 0]])
+            A_pl = np.eye(3) + np.sin(ang) * K + (1 - np.cos(ang)) * K @ K
+            plane = Frame(A_IB=A_pl, name="incline")
+            contr.append(plane)
+            ball_pos = list(np.array([0.7, -0.3, 0.0]) @ A_pl.T + rad * A_pl[:, 2])
         if con == "spin_offcentre":
             # contact sphere centred off the centre of mass of a spinning body: centripetal term in zeta_N;
             # spin about the vertical through the sphere centre P (v_P = 0, contact point at rest)
             kw = {"B_r_CP": np.array([0.15, 0.1, 0.0])}
             om = np.array([0.0, 0.0, 1.7])
             v = -_cross(om, kw["B_r_CP"])
-        ball = _rb(mb, [th, th, th], [2.0, -1.0, z], [1.0, 0, 0, 0], v=v, omega_I=om, name="ball")
+        ball = _rb(mb, [th, th, th], ball_pos, [1.0, 0, 0, 0], v=v, omega_I=om, name="ball")
         s2p = co.Sphere2Plane(plane, ball, mu=mu, r=rad, e_N=0.0, e_F=0.0, name="ball_plane", **kw)
         contr += [ball, fo.Force(np.array([0.0, 0.0, -mb * GRAV]) + ft, ball, name="ball_load"), s2p]
         mus["ball_plane"] = mu
